@@ -158,6 +158,18 @@ CHECKS = {
         'quick': {'shards': 14, 'timeout': 900},
         'thorough': {'shards': 16, 'timeout': 5400},
     },
+    'C07': {
+        'pkg': 'internal/server', 'test': 'TestVerif_C07', 'level': 'exploration',
+        'technique': 'runtime monitor: mutation of genuine first packets (produced by the real client) against the real authentication on fresh states, exact integer-nanosecond window oracle, and dispatch-level observation (handshake reply vs redirect, where an admin request lands) in the real Serve loop',
+        'level_text': 'Genuine first packets of firefox/chrome/safari hellos and the WebSocket GET are captured from the real client; every bit of the sealed block and every third (quick) / every (thorough) other bit is flipped, plus random multi-byte changes, truncations and foreign server keys, each on a fresh state: '
+                      'acceptance requires an unmodified sealed block and an identical recovered identity. The timestamp window is swept in 1 s (thorough) / 7 s (quick) steps over +-400 s and at +-180 s +- {1 ns, 1 ms, 1 s} with four sub-second server phases against the exact integer oracle. '
+                      'Through the real Serve loop, 16 identity/method/session-id classes x 2 transports check that only authorised users of served methods get a handshake reply (others reach the redirect target) and that the admin API answers only to (AdminUID, session id 0).',
+        'level_note': 'Assumes ' + A_RACE + ' and ' + A_HARNESS + '. The X25519-ignored top bit of the ephemeral key is counted, not judged, here (it is C08\'s concern). Changes to non-authenticating parts of a packet may legitimately be accepted.',
+        'rule': 'case = (base packet, shard of bit positions and random modifications) / (transport, clock offsets x server phases) / (dispatch class, transport); counters give the number of presentations; distinct by construction; non-trivial = the genuine packet is accepted first, so every rejection is due to the modification',
+        'assumptions': [A_RACE, A_HARNESS],
+        'quick': {'shards': 16, 'timeout': 900},
+        'thorough': {'shards': 16, 'timeout': 5400},
+    },
 }
 
 NOT_APPLICABLE = {p: 'check not built yet in this round (the design in DESIGN.md section 3 applies; runtime monitoring can decide it)'
